@@ -190,6 +190,16 @@ func jsonReference(doc []byte) (interface{}, error) {
 	return jsonNorm(want), nil
 }
 
+// c16before: half of the documents are a later file of a set that holds 1-2 earlier files (a batch of documents
+// registered in one file set)
+func c16before(doc string) []int {
+	h := run.Hash("c16|" + doc)
+	if h%2 == 0 {
+		return nil
+	}
+	return []int{int(h>>8) % 41, int(h>>16) % 9}[:1+int(h>>24)%2]
+}
+
 func jsonParsley(p parsley.Parser, doc []byte, before []int) (got interface{}, err error, pan string) {
 	defer func() {
 		if r := recover(); r != nil {
@@ -231,7 +241,7 @@ func c16exec(j run.Job, a *run.Acc) {
 				a.Count("generator rejects (not judged)", 1)
 				continue
 			}
-			got, perr, pan := jsonParsley(p, []byte(doc), nil)
+			got, perr, pan := jsonParsley(p, []byte(doc), c16before(doc))
 			d := map[string]any{"document": doc}
 			switch {
 			case strings.HasPrefix(pan, "second evaluation") || strings.HasPrefix(pan, "the File's bytes"):
@@ -309,7 +319,7 @@ func c16exec(j run.Job, a *run.Acc) {
 			}
 			judged++
 			a.Count("corrupted documents judged", 1)
-			got, perr, pan := jsonParsley(p, []byte(m), nil)
+			got, perr, pan := jsonParsley(p, []byte(m), c16before(m))
 			if pan != "" || perr == nil {
 				d := map[string]any{"document": m, "original": doc}
 				if pan != "" {
